@@ -4,6 +4,7 @@ import (
 	"bytes"
 	"fmt"
 	"strings"
+	"sync/atomic"
 	"testing"
 
 	"golang.org/x/net/internal/zzverif/vx"
@@ -122,18 +123,22 @@ func TestVerif_C03(t *testing.T) {
 		quick := c.Quick()
 		cfgs := c03Configs(quick)
 		max3 := vx.Pick(c, 12, 20)
-		fragK := vx.Pick(c, 3, 4)
-		byteL := vx.Pick(c, 4, 6)
-		c.Rule(fmt.Sprintf("blocks: (A) every sequence of 1..%d fragments of the %d-element base fragment alphabet (thorough: also 1..3 of the wide alphabet), each also with its last fragment cut at every byte (truncated blocks); (B) every byte string of length 1..%d over {00,01,0f,3f,40,7f,80,82,be,ff}; (C) the real Encoder's output for every 2-operation history over 17 operations, each also with every one of its first 24 bytes xor 01 / xor 80 / set to ff and every truncation to < 24 bytes. "+
-			"partitions of each block: every 2-partition including an empty chunk, every 3-partition into non-empty chunks for blocks of <= %d bytes, and one byte per Write; under each of %d decoder configurations (initial/allowed table size, 0-2 preloaded entries, max string length). Each partition is compared with the single-Write run. non-trivial = block whose single-Write run emitted a field or changed the table or was retained in saveBuf by some partition", fragK, len(c02Fragments(false)), byteL, max3, len(cfgs)))
+		byteL := vx.Pick(c, 4, 5)
+		c.Rule(fmt.Sprintf("blocks: (A) every sequence of 1..3 fragments of the %d-element fragment alphabet (thorough: the %d-element wide alphabet, plus every 4-sequence over the first 12 fragments), each also with its last fragment cut at every byte (truncated blocks); (C) the real Encoder's output for every 2-operation history over 17 operations, each also with every one of its first 24 bytes xor 01 / xor 80 / set to ff and every truncation to < 24 bytes; (B) every byte string of length 1..%d over {00,01,0f,3f,40,7f,80,82,be,ff}. "+
+			"partitions of each block: every 2-partition including an empty chunk, every 3-partition into non-empty chunks for blocks of <= %d bytes, and one byte per Write; under each of %d decoder configurations (initial/allowed table size, 0-2 preloaded entries, max string length). Each partition is compared with the single-Write run. non-trivial = block whose single-Write run emitted a field or changed the table or was retained in saveBuf by some partition", len(c02Fragments(false)), len(c02Fragments(true)), byteL, max3, len(cfgs)))
 		c.Assume("after the first error of a block the decoder is not used again (callers must tear the connection down); the success/failure of a block is compared, not which error value is returned")
 		c.Assume("purely differential: a defect that misbehaves identically for every partition (e.g. the C01 finding about a second table-size update) is invisible here by construction")
 
+		var runs atomic.Int64
+		defer func() { c.Note("decoder_runs", runs.Load()) }()
 		check := func(w *vx.W, x c03Case) {
 			blk := c02Unhex(x.Block)
+			nruns := int64(0)
+			defer func() { runs.Add(nruns) }()
 			anyResumed, anyEffect := false, false
 			for _, cfg := range cfgs {
 				base := c02RunImpl(cfg, [][][]byte{{blk}})
+				nruns++
 				if base.BadSig != "" {
 					w.Failf("C03/single-write/"+base.BadSig, "%s; block %s (%s) %v", base.Bad, x.Block, x.Desc, cfg)
 					return
@@ -150,10 +155,14 @@ func TestVerif_C03(t *testing.T) {
 				stop := false
 				c03Partitions(blk, max3, func(kind string, chunks [][]byte) bool {
 					sp := c02RunImpl(cfg, [][][]byte{chunks})
+					nruns++
 					if sp.Resumed {
 						anyResumed = true
 					}
-					trig := "single=" + c02ErrClass(base.Err) + ",split=" + c02ErrClass(sp.Err)
+					trig := "single-write-ok"
+					if !base.OK() {
+						trig = "single-write-fails"
+					}
 					switch {
 					case sp.BadSig != "":
 						w.Failf("C03/split-write/"+sp.BadSig, "%s; chunks %s (%s) %v", sp.Bad, c02Chunks(chunks), x.Desc, cfg)
@@ -184,8 +193,8 @@ func TestVerif_C03(t *testing.T) {
 		}
 
 		// (A) fragment sequences
-		genFrags := func(fr []c02Frag, k int, yield func(c03Case) bool) bool {
-			return vx.Strings(fr, 1, k, func(seq []c02Frag) bool {
+		genFragSeq := func(seq []c02Frag, yield func(c03Case) bool) bool {
+			{
 				var head []byte
 				var names []string
 				for _, f := range seq[:len(seq)-1] {
@@ -205,22 +214,20 @@ func TestVerif_C03(t *testing.T) {
 					}
 				}
 				return true
-			})
+			}
+		}
+		genFrags := func(fr []c02Frag, k int, yield func(c03Case) bool) bool {
+			return vx.Strings(fr, 1, k, func(seq []c02Frag) bool { return genFragSeq(seq, yield) })
 		}
 		vx.Enumerate(c, "fragments", vx.Opts{}, func(yield func(c03Case) bool) {
-			if !genFrags(c02Fragments(false), fragK, yield) {
+			if quick {
+				genFrags(c02Fragments(false), 3, yield)
 				return
 			}
-			if !quick {
-				genFrags(c02Fragments(true), 3, yield)
+			if !genFrags(c02Fragments(true), 3, yield) {
+				return
 			}
-		}, check)
-
-		// (B) byte strings
-		vx.Enumerate(c, "bytes", vx.Opts{}, func(yield func(c03Case) bool) {
-			vx.Strings([]byte{0x00, 0x01, 0x0f, 0x3f, 0x40, 0x7f, 0x80, 0x82, 0xbe, 0xff}, 1, byteL, func(b []byte) bool {
-				return yield(c03Case{"bytes", c02Hex(b)})
-			})
+			vx.Strings(c02Fragments(false)[:12], 4, 4, func(seq []c02Frag) bool { return genFragSeq(seq, yield) })
 		}, check)
 
 		// (C) encoder output, intact and damaged
@@ -256,5 +263,12 @@ func TestVerif_C03(t *testing.T) {
 				}
 			}
 		}, check)
+		// (B) byte strings
+		vx.Enumerate(c, "bytes", vx.Opts{}, func(yield func(c03Case) bool) {
+			vx.Strings([]byte{0x00, 0x01, 0x0f, 0x3f, 0x40, 0x7f, 0x80, 0x82, 0xbe, 0xff}, 1, byteL, func(b []byte) bool {
+				return yield(c03Case{"bytes", c02Hex(b)})
+			})
+		}, check)
+
 	})
 }
